@@ -116,6 +116,15 @@ func NewConsumerGroup(parent, fanOutPath string, q FanOutQueue) (ConsumerGroup, 
 		if consumedSeq < ackSeq {
 			consumedSeq = ackSeq
 		}
+		// keep ack <= consumed <= appended, the queue maybe is reset to a smaller appended seq when this consumer group
+		// is stopped(SetAppendedSeq only resets the opened consumer groups).
+		appendedOfQueue := q.Queue().AppendedSeq()
+		if consumedSeq > appendedOfQueue {
+			consumedSeq = appendedOfQueue
+		}
+		if ackSeq > consumedSeq {
+			ackSeq = consumedSeq
+		}
 	}
 	// persist metadata
 	metaPage.PutUint64(uint64(consumedSeq), consumerGroupConsumedSeqOffset)
